@@ -393,6 +393,9 @@ func init() {
 							}
 							if id, ok := x.Key.(*ast.Ident); ok && id.Name != "_" {
 								s2[id.Name] = "<rangekey>"
+							} else if v, ok := x.Value.(*ast.Ident); ok && v.Name != "_" {
+								// `for _, k := range <sorted keys>`: the element of the key list is the key
+								s2[v.Name] = "<rangekey>"
 							}
 							for _, bs := range x.Body.List {
 								if as, ok := bs.(*ast.AssignStmt); ok && as.Tok.String() == ":=" && len(as.Lhs) == 1 && len(as.Rhs) == 1 {
@@ -816,21 +819,38 @@ func init() {
 			if clause == nil {
 				return "", nil, fmt.Errorf("Fork.postProcess: TypedMapType clause not found")
 			}
-			var rng *ast.RangeStmt
+			// the loop over the fork keys: either `for k, elem := range outs` or, since the keys are
+			// visited in sorted order (fix 9c2c4c3), `for _, k := range forkKeys`; a loop that only
+			// collects the keys has no legality branch and is skipped
+			found := false
+			verdict := false
 			ast.Inspect(clause, func(n ast.Node) bool {
-				if r, ok := n.(*ast.RangeStmt); ok && rng == nil {
-					rng = r
+				r, ok := n.(*ast.RangeStmt)
+				if !ok {
+					return true
 				}
-				return rng == nil
+				key := c13Render(r.Key, nil)
+				if key == "_" && r.Value != nil {
+					key = c13Render(r.Value, nil)
+				}
+				bs := c13IllegalKeyBranches(r.Body)
+				if len(bs) == 0 {
+					return true
+				}
+				found = true
+				for _, b := range bs {
+					if b.arg == key && b.appends && b.cont {
+						verdict = true
+					}
+				}
+				return true
 			})
-			if rng == nil {
-				return "", nil, fmt.Errorf("Fork.postProcess: loop over the fork keys not found")
+			if !found {
+				// no legality test of the fork key at all: the unrepaired shape
+				return "false", false, nil
 			}
-			key := c13Render(rng.Key, nil)
-			for _, b := range c13IllegalKeyBranches(rng.Body) {
-				if b.arg == key && b.appends && b.cont {
-					return "true", true, nil
-				}
+			if verdict {
+				return "true", true, nil
 			}
 			return "false", false, nil
 		},
